@@ -575,13 +575,74 @@ func genCliGoAway(p *prng, thorough bool, w *bufio.Writer) {
 		how := q.pick([]string{"cut", "close"})
 		s.finale(how)
 	}
+	// write failure around a GOAWAY: the transport stops taking writes before or after the server
+	// says which streams it accepted; whatever each request ends with, only one that was never
+	// written, or that the server disclaimed, may be called retryable
+	nw := 24
+	if thorough {
+		nw = 300
+	}
+	for i := 0; i < nw; i++ {
+		q := p.fork()
+		s := newScn(w, q, 3, 100)
+		k := 2 + q.intn(4)
+		for j := 0; j < k; j++ {
+			body := "none"
+			if q.chance(1, 3) {
+				body = fmt.Sprintf("buf:1:%d", 1+q.intn(3000))
+			}
+			s.req(reqSpec{path: fmt.Sprintf("/w%d", j), body: body})
+		}
+		last := uint32(2*q.intn(k)) + 1
+		budget := []int{0, 0, 5, 13, 30, 200}[q.intn(6)]
+		at := q.intn(3)
+		s.note("wfail %s goaway last=%d at=%d budget=%d", s.id, last, at, budget)
+		if at == 0 {
+			s.op("failwrite %d", budget)
+		}
+		s.note("goaway %s last=%d", s.id, last)
+		s.frame(frGoAway(last, 0, nil))
+		s.goAway = true
+		if at == 1 {
+			s.op("failwrite %d", budget)
+		}
+		s.req(reqSpec{path: "/late"})
+		for _, sid := range s.openSids() {
+			if sid > last {
+				continue
+			}
+			if at == 2 && sid == last {
+				s.op("failwrite %d", budget)
+			}
+			r := s.randResp(400)
+			r.emptyLast = true
+			s.frames(s.render(sid, r)...)
+			if q.chance(1, 3) {
+				s.frame(frPing(false, q.bytes(8)))
+			}
+		}
+		if q.chance(1, 2) {
+			for _, t := range s.tags {
+				s.op("timeout %s", t)
+			}
+		}
+		s.finale("")
+		s.finale(q.pick([]string{"cut", "close"}))
+	}
 }
 
 // ---------------------------------------------------------------- C12: whatever the server does
 
 func (s *scn) hostile(sid uint32) []byte {
 	q := s.p
-	switch q.intn(16) {
+	switch q.intn(18) {
+	case 16: // a well-formed WINDOW_UPDATE or PRIORITY whose flags octet has bits without meaning for it (0x1 looks like END_STREAM)
+		if q.chance(1, 2) {
+			return fr(8, byte(1+q.intn(255)), sid, cli_u32(uint32(1+q.intn(1000))))
+		}
+		return fr(2, byte(1+q.intn(255)), sid, []byte{0, 0, 0, 0, byte(q.intn(256))})
+	case 17: // the same on the connection
+		return fr(8, byte(1+q.intn(255)), 0, cli_u32(uint32(1+q.intn(1000))))
 	case 0:
 		return frRst(sid, uint32(q.intn(14)))
 	case 1:
@@ -719,6 +780,18 @@ func genCliResolve(p *prng, thorough bool, w *bufio.Writer) {
 		_ = t2
 		s.finale("")
 		s.finale("close")
+	}
+	// write failures (see cli_gen_wfail.go; the family cliwfail has every budget): here every write
+	// after the chosen position of each scripted exchange fails outright
+	{
+		q := p.fork()
+		n := 0
+		for _, x := range wfExchanges {
+			for at := 0; at <= wfCount(x); at++ {
+				wfPlay(w, q.fork(), x, at, 0, wfFinales[n%len(wfFinales)])
+				n++
+			}
+		}
 	}
 }
 
